@@ -130,6 +130,7 @@ def run(tier, seed, replay=None):
             stats['no_superset'] += 1; continue
         mreq.append('subst\t%s\t%s\t%s' % (subs, bounded, trait)); midx.append((i, 'subst'))
         mreq.append('stable\t%s\t%s\t%s' % (subs, bounded, trait)); midx.append((i, 'stable'))
+        mreq.append('wf\t%s' % subs); midx.append((i, 'wf'))
         kt = sx.parse(keys)
         for j, k in enumerate(kt[2]):
             mreq.append('roundtrip\t%s\t%s\t%s\t%s\t%s' % (subs, bounded, trait, show(k[2][0]), show(k[2][1])))
@@ -161,7 +162,9 @@ def run(tier, seed, replay=None):
                 values[key] = values.get(key, 0) + 1
         expected_n = count_choices(sx.parse(bounded), values) * count_choices(sx.parse(trait), values)
         prop_fail = None
-        if len(results) == 0:
+        if m['wf'] != 'true':
+            prop_fail = 'the substitution reported by is_superset is not well-formed (duplicate key, non-parameter key or ill-sorted value): hypothesis of C10_roundtrip'
+        elif len(results) == 0:
             prop_fail = 'the result is empty'
         elif len(set(results)) != len(results):
             prop_fail = 'a re-expression is produced twice'
